@@ -11,6 +11,12 @@
 static resp0_sock sock;
 static resp0_pipe pd[MAXP];
 static int       sock_closed;
+#ifdef XCTX /* the operations go through an explicit context (nng_ctx_open) instead of the socket's embedded one */
+static resp0_ctx xctx;
+#define CTXP (&xctx)
+#else
+#define CTXP (&sock.ctx)
+#endif
 static int       ukind[MAXU], noted[MAXU];
 #define MAXQ 4
 static u8  qhdr[MAXQ][64];
@@ -113,10 +119,10 @@ ev_got(int p, int nh)
 	int n = (nh + 1) * 4;
 	for (int k = 0; k < n; k++) {
 		qhdr[nq][k]                     = ND(u8);
-		((u8 *) sock.ctx.btrace)[k] = qhdr[nq][k];
+		((u8 *) CTXP->btrace)[k] = qhdr[nq][k];
 	}
-	sock.ctx.btrace_len = (size_t) n;
-	sock.ctx.pipe_id    = kpipe[p].id;
+	CTXP->btrace_len = (size_t) n;
+	CTXP->pipe_id    = kpipe[p].id;
 	qhlen[nq]           = n;
 	qpipe[nq]           = p;
 	nq++;
@@ -168,11 +174,11 @@ ev_recv(int i, int blocking)
 	if (kstop)
 		return;
 	int can  = !nni_list_empty(&sock.recvpipes);
-	int busy = sock.ctx.raio != NULL;
+	int busy = CTXP->raio != NULL;
 	kuaio_prepare(i, blocking);
 	ukind[i] = 2;
 	env_aio_submit(&uaio_at(i));
-	resp0_ctx_recv(&sock.ctx, &uaio_at(i));
+	resp0_ctx_recv(CTXP, &uaio_at(i));
 	if (can)
 		CHECK(KDONE(i) && KRESULT(i) == 0, "C15: receive succeeds at once when a request is waiting");
 	else if (!blocking)
@@ -201,7 +207,7 @@ ev_send(int i, int blocking)
 	umsg[i]->tag = 77 + i;
 	nni_aio_set_msg(&uaio_at(i), umsg[i]);
 	env_aio_submit(&uaio_at(i));
-	resp0_ctx_send(&sock.ctx, &uaio_at(i));
+	resp0_ctx_send(CTXP, &uaio_at(i));
 	kquiesce();
 #ifdef KF_RESP_NONBLOCK_EAGAIN
 	/* known finding F7 excluded: resp0_ctx_send starts the aio first, so a
@@ -289,6 +295,9 @@ ev_close(void)
 	for (int i = 0; i < MAXU; i++)
 		if (uaio_used[i])
 			CHECK(KDONE(i), "C10: close completes every pending operation");
+#ifdef XCTX
+	resp0_ctx_fini(&xctx);
+#endif
 	resp0_sock_fini(&sock);
 	CHECK(env_msg_live == 0, "C03: after close and fini every message has been released exactly once");
 	WITNESS("closed");
@@ -309,6 +318,9 @@ void
 harness(void)
 {
 	resp0_sock_init(&sock, NULL);
+#ifdef XCTX
+	resp0_ctx_init(&xctx, &sock);
+#endif
 	monitor();
 	SKEL
 	if (!kstop)
